@@ -15,6 +15,7 @@ Accept(e) == CASE e.kind = "decode" -> DecodeOK(e)
                [] e.kind = "alpha" -> AlphaOK(e)
                [] e.kind = "alphanorm" -> AlphaNormOK(e)
                [] e.kind = "firstuse" -> FirstUseOK(e)
+               [] e.kind = "tablehash" -> TableHashOK(e)
 Judge(n) == IF Accept(Trace[n]) THEN TRUE ELSE PrintT(ToJson([reject |-> n]))
 Init == k = 0
 Next == \/ /\ k = 0
